@@ -315,3 +315,216 @@ func VxC17_LogNice() {
 // vxGuess0 replaces Linear.guessLevel (a logarithm of the domain width): FindLevel's result does not
 // depend on its starting guess (VxC17_FindLevel*).
 func vxGuess0(s *Linear) int { return 0 }
+
+// VxC17_LogTicks: Log.Ticks at a pinned level: the major ticks are exactly the powers of the level's
+// effective base inside the domain, ascending (negated and reversed for a negative domain); the minor
+// ticks are the next finer level - for level 0 the multiples k*Base^n, k = 1..Base-1 - inside the
+// domain; every major tick is a minor tick; CountTicks(l) = len(TicksAtLevel(l)) for l >= 0.
+// C17: "Ticks returns ascending major and minor ticks inside the domain, ... every major tick also a minor tick, at nice values
+// (... powers of the base for Log) ...; CountTicks(l) equals len(TicksAtLevel(l)) and is non-increasing in l."
+//
+//vx:mode R
+//vx:solver z3
+//vx:maxdec 200000
+//vx:timeout 60000
+//vx:bound Base 10 (levels 0..1) and Base 2 (levels 1..2), level pinned through MinLevel == MaxLevel; positive and negative domains with 1/64 <= |Min| < |Max| <= 64 (Base 10: 0.5..50 quick / 0.01..100 thorough); log uninterpreted and strictly increasing; the integer tick indexes are case-split so that math.Pow is evaluated natively
+//vx:assume math.Log is strictly increasing; math.Log of a constant is the native value
+//vx:outside accuracy of math.Log/Pow (ticks within 1e-9 of a domain end in log space may fall on either side, as the library's own slack is 1e-10 of the log-width); CountTicks at negative Log levels (not defined: it returns the largest int there)
+func VxC17_LogTicks() {
+	base := []int{10, 2}[vx.Choose("base", 0, 1)]
+	level := vx.Choose("level", 0, 1)
+	boxLo, boxHi := 0.5, 50.0
+	if vx.Tier() == 1 {
+		boxLo, boxHi = 0.01, 100
+	}
+	if base == 2 {
+		level++
+		boxLo, boxHi = 1.0/64, 64
+	}
+	lo, hi := vx.Float("lo"), vx.Float("hi")
+	vx.Assume(vx.And(lo >= boxLo, hi <= boxHi))
+	vx.Assume(lo < hi)
+	vx.Assume(vx.And(math.Log(lo) >= math.Log(boxLo), math.Log(hi) <= math.Log(boxHi)))
+	vx.Assume(math.Log(lo) < math.Log(hi))
+	neg := vx.Choose("negative", 0, 1) == 1
+	s, err := NewLog(lo, hi, base)
+	if neg {
+		s, err = NewLog(-hi, -lo, base)
+	}
+	vx.Assume(err == nil)
+	o := TickOptions{Max: 1 << 30, MinLevel: level, MaxLevel: level}
+	// pin the integer tick indexes of both levels (forks over the few feasible values)
+	fn, ln, ebase := s.spacingAtLevel(level, false)
+	vx.Concretize(int(fn))
+	vx.Concretize(int(ln))
+	if level >= 1 {
+		f2, l2, _ := s.spacingAtLevel(level-1, false)
+		vx.Concretize(int(f2))
+		vx.Concretize(int(l2))
+	} else {
+		f2, l2, _ := s.spacingAtLevel(0, true)
+		vx.Concretize(int(f2))
+		vx.Concretize(int(l2))
+	}
+	major, minor := s.Ticks(o)
+	vx.Assert(len(major) == s.CountTicks(level), "CountTicks(l) == len(TicksAtLevel(l)) at the major level")
+	if level >= 1 {
+		vx.Assert(len(minor) == s.CountTicks(level-1), "CountTicks(l-1) == len(TicksAtLevel(l-1))")
+		vx.Assert(len(minor) >= len(major), "the tick count is non-increasing in the level")
+	}
+	abs := func(ts []float64) []float64 {
+		out := make([]float64, len(ts))
+		for i, t := range ts {
+			if neg {
+				out[len(ts)-1-i] = -t
+			} else {
+				out[i] = t
+			}
+		}
+		return out
+	}
+	for i := 1; i < len(major); i++ {
+		vx.Assert(major[i-1] < major[i], "major ticks ascend")
+	}
+	for i := 1; i < len(minor); i++ {
+		vx.Assert(minor[i-1] < minor[i], "minor ticks ascend")
+	}
+	am, an := abs(major), abs(minor)
+	slk := 1e-9 * (math.Log(hi) - math.Log(lo) + 1)
+	llo, lhi := math.Log(lo), math.Log(hi)
+	// anchor the uninterpreted logarithm at every candidate tick value (true by monotonicity): the
+	// minor ticks are filtered by comparing values, the decades by comparing logarithms
+	anchor := func(m float64) {
+		lm := math.Log(m)
+		vx.Assume(vx.And(vx.Implies(lo < m, llo < lm), vx.Implies(lo > m, llo > lm)))
+		vx.Assume(vx.And(vx.Implies(hi < m, lhi < lm), vx.Implies(hi > m, lhi > lm)))
+		vx.Assume(vx.And(vx.Implies(lo == m, llo == lm), vx.Implies(hi == m, lhi == lm)))
+	}
+	for n := -3; n <= 3 && level == 0; n++ {
+		for k := 1; k < base; k++ {
+			m := float64(k) * math.Pow(float64(base), float64(n))
+			if m >= boxLo/2 && m <= boxHi*2 {
+				anchor(m)
+			}
+		}
+	}
+	// majors: exactly the powers of the effective base inside the domain
+	for n := -8; n <= 8; n++ {
+		p := math.Pow(ebase, float64(n))
+		if p < boxLo/2 || p > boxHi*2 {
+			continue
+		}
+		in := false
+		for _, t := range am {
+			in = in || (vx.IsConcrete(t) && vx.Near(t, p, 1e-12, 0))
+		}
+		lp := math.Log(p)
+		if in {
+			vx.Assert(vx.And(lp >= llo-slk, lp <= lhi+slk), "major ticks lie inside the domain")
+		} else {
+			vx.Assert(!vx.And(lp >= llo+slk, lp <= lhi-slk), "every power of the effective base inside the domain is a major tick")
+		}
+	}
+	for _, t := range am {
+		vx.Assert(vx.IsConcrete(t), "major ticks are powers of the effective base with integer exponents")
+		inMinor := false
+		for _, u := range an {
+			inMinor = inMinor || (vx.IsConcrete(u) && vx.Near(u, t, 1e-12, 0))
+		}
+		vx.Assert(inMinor, "every major tick is also a minor tick")
+	}
+	if level == 0 {
+		// minors: k*Base^n inside the domain (the library compares the tick with Min and Max directly)
+		for n := -3; n <= 3; n++ {
+			for k := 1; k < base; k++ {
+				m := float64(k) * math.Pow(float64(base), float64(n))
+				if m < boxLo/2 || m > boxHi*2 {
+					continue
+				}
+				in := false
+				for _, u := range an {
+					in = in || (vx.IsConcrete(u) && vx.Near(u, m, 1e-12, 0))
+				}
+				if in {
+					inside := vx.And(m*(1+1e-12) >= lo, m*(1-1e-12) <= hi)
+					if k == 1 {
+						// a power of the base is admitted with the major ticks' slack
+						lm := math.Log(m)
+						inside = vx.Or(inside, vx.And(lm >= llo-slk, lm <= lhi+slk))
+					}
+					vx.Assert(inside, "minor ticks lie inside the domain")
+				} else {
+					vx.Assert(!vx.And(m*(1-1e-12) > lo, m*(1+1e-12) < hi), "every multiple k*Base^n inside the domain is a minor tick")
+				}
+			}
+		}
+		for _, u := range an {
+			vx.Assert(vx.IsConcrete(u), "minor ticks are multiples of powers of the base")
+		}
+	}
+}
+
+// VxC17_TicksLevelLimits: Ticks honours TickOptions: it returns the ticks of the lowest level within
+// [MinLevel, MaxLevel] (no limits when both are 0) whose count is at most Max, with the next finer
+// level as minor ticks, and no ticks exactly when no such level exists - on fixed Linear and Log
+// domains with symbolic options (the solver partitions Max by the tick counts of the levels).
+// C17: "at most Max major ticks ... and at the finest level that fits"; "FindLevel returns the lowest level within
+// [MinLevel,MaxLevel] whose tick count is at most Max ... and reports failure exactly when no such level exists".
+//
+//vx:mode R
+//vx:solver z3
+//vx:maxdec 100000
+//vx:bound domains Linear [0,100], Log [1,1e8], Log [-1e8,-1] (base 10); TickOptions.Max any int in [1,20] (symbolic), MinLevel and MaxLevel each in -3..4 (case split; including MinLevel > MaxLevel and the unlimited pair 0,0)
+//vx:outside symbolic domains together with symbolic options (VxC17_LinearTicks / VxC17_LogTicks pin the level instead)
+func VxC17_TicksLevelLimits() {
+	var sc interface {
+		Ticks(TickOptions) ([]float64, []float64)
+	}
+	var tk Ticker
+	switch vx.Choose("scale", 0, 2) {
+	case 0:
+		l := &Linear{Min: 0, Max: 100}
+		sc, tk = l, l
+	case 1:
+		l, _ := NewLog(1, 1e8, 10)
+		sc, tk = l, &l
+	default:
+		l, _ := NewLog(-1e8, -1, 10)
+		sc, tk = l, &l
+	}
+	max := vx.Int("Max")
+	vx.Assume(vx.And(max >= 1, max <= 20))
+	minL, maxL := vx.Choose("MinLevel", -3, 4), vx.Choose("MaxLevel", -3, 4) // case split: the level enters math.Pow
+	major, minor := sc.Ticks(TickOptions{Max: max, MinLevel: minL, MaxLevel: maxL})
+	// reference: scan the levels upward
+	lo, hi := minL, maxL
+	if minL == 0 && maxL == 0 {
+		lo, hi = -6, 12
+	}
+	best, found := 0, false
+	for l := -6; l <= 12 && !found; l++ {
+		if l < lo || l > hi {
+			continue
+		}
+		if tk.CountTicks(l) <= max {
+			best, found = l, true
+		}
+	}
+	if !found {
+		vx.Cover("none")
+		vx.Assert(major == nil && minor == nil, "no ticks when no level in the window has at most Max ticks")
+		return
+	}
+	vx.Cover("found")
+	wantMajor := tk.TicksAtLevel(best).([]float64)
+	wantMinor := tk.TicksAtLevel(best - 1).([]float64)
+	vx.Assert(len(major) <= max, "at most Max major ticks")
+	ok := len(major) == len(wantMajor) && len(minor) == len(wantMinor)
+	for i := 0; ok && i < len(major); i++ {
+		ok = major[i] == wantMajor[i]
+	}
+	for i := 0; ok && i < len(minor); i++ {
+		ok = minor[i] == wantMinor[i]
+	}
+	vx.Assert(ok, "Ticks returns the lowest level in the window that fits, with the next finer level as minor ticks")
+}
